@@ -25,27 +25,12 @@ Proof.
   induction bs as [|b bs IH]; intros batch s; simpl; [reflexivity|].
   destruct batch; [reflexivity|]. rewrite IH. apply fold_merge_target_errored.
 Qed.
-Ltac errored_solve := first [ reflexivity | apply merge_target_errored | apply merge_pairwise_errored | apply merge_buckets_errored ].
-Lemma merge_result_errored : forall f res items batch s, ls_errored (merge_result f res items batch s) = ls_errored s.
+Lemma merge_result_errored_incl : forall f res items batch s id,
+  In id (ls_errored (merge_result f res items batch s)) -> In id (ls_errored s) \/ id = f_id f.
 Proof.
-  intros f res items batch s. unfold merge_result.
-  destruct (rs_err res); [errored_solve|].
-  destruct (rs_body res) as [| |resp]; [errored_solve|destruct (non2xx (rs_status res)); errored_solve|].
-  set (he := match get_loc [PName k_errors] resp with Some (JArr (_ :: _)) => true | _ => false end).
-  set (s1 := if he then add_error s LE_FETCH f else s).
-  assert (H1 : ls_errored s1 = ls_errored s) by (subst s1; destruct he; reflexivity).
-  rewrite <- H1. clearbody s1. clear H1.
-  destruct (is_nullish (get_loc (f_datapath f) resp)).
-  - destruct (is_entity_kind (f_kind f) && _); [errored_solve|].
-    destruct (negb he && non2xx (rs_status res)); [errored_solve|]. destruct (negb he); errored_solve.
-  - destruct (get_loc (f_datapath f) resp) as [rd|]; [|errored_solve].
-    destruct items as [|l [|l2 r]].
-    + destruct rd; errored_solve.
-    + destruct batch as [bs|].
-      * destruct rd as [| | | |[|b0 b]|]; try errored_solve. destruct (Nat.eqb _ _); errored_solve.
-      * errored_solve.
-    + destruct rd as [| | | |[|b0 b]|]; try errored_solve.
-      destruct batch as [bs|]; destruct (Nat.eqb _ _); errored_solve.
+  intros f res items batch s id. mr_cases;
+    rewrite ?merge_target_errored, ?merge_pairwise_errored, ?merge_buckets_errored;
+    cbn [ls_errored fail add_error add_errored set_data In]; intros H; intuition auto.
 Qed.
 
 (* ---- one merge below a bound that contains the merged value ---- *)
@@ -127,10 +112,12 @@ Proof.
   intros f res items batch s D Hmp Hs Hne Hone Hc. unfold merge_result.
   destruct (rs_err res) eqn:Eerr; [exact Hs|].
   destruct (rs_body res) as [| |resp] eqn:Eb; [exact Hs|destruct (non2xx (rs_status res)); exact Hs|].
+  destruct (negb (valid_numbers resp)); [destruct (non2xx (rs_status res)); exact Hs|].
   set (he := match get_loc [PName k_errors] resp with Some (JArr (_ :: _)) => true | _ => false end).
   set (s1 := if he then add_error s LE_FETCH f else s).
   assert (H1 : sub_b (ls_data s1) D = true) by (subst s1; destruct he; exact Hs).
   clearbody s1.
+  match goal with |- context [if ?c then fail s1 LE_COUNT f else _] => destruct c end; [exact H1|].
   destruct (is_nullish (get_loc (f_datapath f) resp)).
   - destruct (is_entity_kind (f_kind f) && _); [exact H1|].
     destruct (negb he && non2xx (rs_status res)); [exact H1|]. destruct (negb he); exact H1.
@@ -145,56 +132,6 @@ Proof.
       * destruct rd as [| | | |[|b0 b]|]; try exact H1. destruct (Nat.eqb _ _); [|exact H1].
         apply merge_buckets_sub; [exact Hmp|exact H1|]. intros locs src Hin l' Hl'. eapply Hc; [reflexivity|exact Hin|exact Hl'].
       * destruct (Hone eq_refl) as (l' & E). discriminate.
-Qed.
-
-(* ---- a loud fault merges nothing ---- *)
-Lemma loud_body_data : forall f k r items batch s,
-  f_datapath f = datapath_of (f_kind f) -> loud_body k = true ->
-  ls_data (merge_result f (apply_fault k r) items batch s) = ls_data s.
-Proof.
-  intros f k r items batch s Hd Hk.
-  destruct k; try discriminate; unfold merge_result, apply_fault, mk_response; cbn [rs_err rs_body rs_status];
-    try reflexivity; rewrite Hd; destruct (f_kind f); cbn; reflexivity.
-Qed.
-
-Lemma count_data : forall answer root_answer f k rq (bs : list (bytes * list rpath)) items s,
-  f_datapath f = datapath_of FBatch -> (k = FtCountLess \/ k = FtCountMore) ->
-  rq_reps rq = map fst bs -> bs <> [] ->
-  ls_data (merge_result f (apply_fault k (clean_response answer root_answer rq false)) items (Some (map snd bs)) s) = ls_data s.
-Proof.
-  intros answer root_answer f k rq bs items s Hd Hk Hr Hne.
-  remember (map fst (map (answer (rq_fetch rq)) (rq_reps rq))) as ents eqn:Hents.
-  assert (Hlen : length ents = length bs) by (subst ents; rewrite !map_length, Hr, map_length; reflexivity).
-  assert (Hpos : (0 < length bs)%nat) by (destruct bs; [congruence|simpl; lia]).
-  assert (Hne' : ents <> []) by (intro E; rewrite E in Hlen; simpl in Hlen; lia).
-  assert (exists g, apply_fault k (clean_response answer root_answer rq false) = on_body (map_entities g) (clean_response answer root_answer rq false)
-                    /\ length (g ents) <> length bs) as (g & Hg & Hgl).
-  { destruct Hk; subst k.
-    - eexists; split; [reflexivity|]. cbv beta.
-      pose proof (app_removelast_last JNull Hne') as H.
-      apply (f_equal (@length json)) in H. rewrite app_length in H. simpl in H. lia.
-    - eexists; split; [reflexivity|]. cbv beta. destruct (rev ents) as [|x r] eqn:E.
-      + apply (f_equal (@length json)) in E. rewrite rev_length in E. simpl in E. lia.
-      + rewrite app_length. simpl. lia. }
-  rewrite Hg. unfold merge_result.
-  assert (He : rs_err (on_body (map_entities g) (clean_response answer root_answer rq false)) = false) by reflexivity.
-  rewrite He, count_body. rewrite <- Hents. rewrite Hd.
-  set (errs := errors_member (flat_map snd (map (answer (rq_fetch rq)) (rq_reps rq)))).
-  assert (Hrd : get_loc (datapath_of FBatch) (JObj ((k_data, JObj [(k_entities, JArr (g ents))]) :: errs)) = Some (JArr (g ents))).
-  { unfold datapath_of. cbn [get_loc obj_get]. change (bytes_eqb k_data k_data) with true. cbv iota.
-    cbn [get_loc obj_get]. change (bytes_eqb k_entities k_entities) with true. reflexivity. }
-  rewrite Hrd. cbn [is_nullish].
-  set (s1 := if match get_loc [PName k_errors] (JObj ((k_data, JObj [(k_entities, JArr (g ents))]) :: errs)) with
-                | Some (JArr (_ :: _)) => true | _ => false end then add_error s LE_FETCH f else s).
-  assert (H1 : ls_data s1 = ls_data s) by (subst s1; match goal with |- ls_data (if ?c then _ else _) = _ => destruct c end; reflexivity).
-  destruct items as [|l [|l2 r]].
-  - exact H1.
-  - destruct (g ents) as [|b0 b] eqn:G; [exact H1|].
-    rewrite map_length. destruct (Nat.eqb (length bs) (length (b0 :: b))) eqn:E; [|exact H1].
-    apply Nat.eqb_eq in E. congruence.
-  - destruct (g ents) as [|b0 b] eqn:G; [exact H1|].
-    rewrite map_length. destruct (Nat.eqb (length bs) (length (b0 :: b))) eqn:E; [|exact H1].
-    apply Nat.eqb_eq in E. congruence.
 Qed.
 
 (* ---- the clean responses, as seen through the post-processing paths ---- *)
@@ -263,6 +200,7 @@ Section Sim.
   Variable kind_of : N -> fkind.
   Variable F : N -> option fault.
   Hypothesis Hloud : forall id k, F id = Some k -> loud (kind_of id) k = true.
+  Hypothesis Hrobj : forall id, exists m, fst (root_answer id) = JObj m.
 
   Let e0 := clean_exchange answer root_answer kind_of.
   Let eF := faulty_exchange answer root_answer kind_of F.
@@ -288,20 +226,27 @@ Section Sim.
       exists w. split; [reflexivity|exact Hc].
   Qed.
 
-  (* the fault-free step: errored stays empty, requests are appended *)
+  Lemma step_ok_parts : forall f s0, step_ok_b answer root_answer kind_of f s0 = true ->
+    ls_hard (fst (run_fetch unit e0 f (s0, tt))) = false /\ ls_errored (fst (run_fetch unit e0 f (s0, tt))) = [].
+  Proof.
+    intros f s0 H. unfold step_ok_b in H. apply andb_prop in H as [H _]. apply andb_prop in H as [H _]. apply andb_prop in H as [H _].
+    apply andb_prop in H as [H1 H2]. unfold e0. split; [apply negb_true_iff in H1; exact H1|].
+    destruct (ls_errored (fst (run_fetch unit (clean_exchange answer root_answer kind_of) f (s0, tt)))); [reflexivity|discriminate].
+  Qed.
+
+  (* the fault-free step: requests are appended *)
   Lemma zero_step_shape : forall f s0, ls_errored s0 = [] -> fetch_ok kind_of f = true ->
     let s0' := fst (run_fetch unit e0 f (s0, tt)) in
-    ls_errored s0' = [] /\
     match prepare f (ls_data s0) (select_items (ls_data s0) (f_path f)) with
     | PSkip _ => ls_reqs s0' = ls_reqs s0
     | PLoad _ rq _ => ls_reqs s0' = ls_reqs s0 ++ [rq]
     end.
   Proof.
     intros f s0 He Hok. unfold run_fetch. rewrite (should_skip_nil f s0 He).
-    destruct (prepare f (ls_data s0) (select_items (ls_data s0) (f_path f))) as [d|d rq batch]; [split; [exact He|reflexivity]|].
+    destruct (prepare f (ls_data s0) (select_items (ls_data s0) (f_path f))) as [d|d rq batch]; [reflexivity|].
     unfold e0, clean_exchange, faulty_exchange. cbn [fst].
     assert (Hr : rs_err (clean_response answer root_answer rq match kind_of (rq_fetch rq) with FSingle => true | _ => false end) = false) by reflexivity.
-    rewrite Hr. split; [rewrite merge_result_errored; exact He|rewrite merge_result_reqs; reflexivity].
+    rewrite Hr. rewrite merge_result_reqs. reflexivity.
   Qed.
 
   Lemma fetch_ok_inv : forall f, fetch_ok kind_of f = true ->
@@ -490,12 +435,11 @@ Section Sim.
     ls_errored s0' = [] /\ ls_hard s0' = false /\ sub_b (ls_data s0) (ls_data s0') = true /\ exists x, ls_reqs s0' = ls_reqs s0 ++ x.
   Proof.
     intros f s0 He Hok Hstep.
-    destruct (zero_step_shape f s0 He Hok) as [He' Hr]. destruct (targets_contained f s0 Hstep) as (Hinfl & _ & _).
-    split; [exact He'|]. split.
-    - unfold step_ok_b in Hstep. apply andb_prop in Hstep as [H _]. apply andb_prop in H as [H _]. apply andb_prop in H as [H _].
-      apply negb_true_iff in H. exact H.
-    - split; [exact Hinfl|].
-      destruct (prepare f (ls_data s0) (select_items (ls_data s0) (f_path f))); [exists []; rewrite app_nil_r; exact Hr|eexists; exact Hr].
+    pose proof (zero_step_shape f s0 He Hok) as Hr. destruct (step_ok_parts f s0 Hstep) as [Hh' He'].
+    destruct (targets_contained f s0 Hstep) as (Hinfl & _ & _).
+    split; [exact He'|]. split; [exact Hh'|].
+    split; [exact Hinfl|].
+    destruct (prepare f (ls_data s0) (select_items (ls_data s0) (f_path f))); [exists []; rewrite app_nil_r; exact Hr|eexists; exact Hr].
   Qed.
 
   Lemma Rst_zero_only : forall s0 s0' sF, Rst s0 sF ->
@@ -530,7 +474,7 @@ Section Sim.
     { destruct (f_kind f) eqn:K; [eapply load_sim_single|eapply load_sim_entity|eapply load_sim_batch]; try eassumption; exact (R_sub _ _ HR). }
     destruct Hload as ((d0 & rq0 & batch0 & HP0 & Hcov) & HneF & Hone & Hcont).
     assert (Hreq0 : In rq0 (ls_reqs s0')).
-    { destruct (zero_step_shape f s0 (R_err0 _ _ HR) Hok) as [_ Hr]. rewrite HP0 in Hr. fold s0' in Hr. rewrite Hr. apply in_or_app. right. left. reflexivity. }
+    { pose proof (zero_step_shape f s0 (R_err0 _ _ HR) Hok) as Hr. rewrite HP0 in Hr. fold s0' in Hr. rewrite Hr. apply in_or_app. right. left. reflexivity. }
     unfold eF, faulty_exchange. rewrite Hrq, Hk.
     set (cl := clean_response answer root_answer rqF match f_kind f with FSingle => true | _ => false end).
     set (res := match F (f_id f) with Some k => apply_fault k cl | None => cl end).
@@ -543,12 +487,8 @@ Section Sim.
     - (* data *)
       destruct (F (f_id f)) as [k|] eqn:EF.
       + assert (Hsame : ls_data (merge_result f res (select_items (ls_data sF) (f_path f)) batchF sF2) = ls_data sF2).
-        { subst res. specialize (Hloud _ _ EF). rewrite Hk in Hloud.
-          destruct (loud_body k) eqn:LB; [apply loud_body_data; assumption|].
-          assert (Hc : (k = FtCountLess \/ k = FtCountMore) /\ f_kind f = FBatch).
-          { destruct k; try discriminate; simpl in Hloud; destruct (f_kind f); try discriminate; auto. }
-          destruct Hc as [Hc Hfk]. destruct (Hbatch Hfk) as (bs & Hne & Hreps & Hb). subst batchF.
-          subst cl. rewrite Hfk. apply count_data; try assumption. rewrite Hd, Hfk. reflexivity. }
+        { subst res cl. specialize (Hloud _ _ EF). rewrite Hk in Hloud.
+          apply (proj2 (loud_outcome answer root_answer f k _ _ _ _ _ _ sF2 Hrobj Hd Hloud HP)). }
         rewrite Hsame, HdF2. exact Rs.
       + subst res. apply merge_result_sub; try assumption.
     - (* requests *)
@@ -611,32 +551,34 @@ Section Sim.
 End Sim.
 
 (* ---- corollaries ---- *)
+Definition roots_are_objects (root_answer : N -> json * list json) : Prop := forall id, exists m, fst (root_answer id) = JObj m.
+
+Lemma monotone_proof : forall answer root_answer kind_of F t,
+  (forall id k, F id = Some k -> loud (kind_of id) k = true) -> roots_are_objects root_answer ->
+  fplan_wf kind_of t = true -> consistent answer root_answer kind_of t = true ->
+  sub_b (ls_data (run answer root_answer kind_of F t)) (ls_data (run answer root_answer kind_of no_faults t)) = true.
+Proof. intros answer root_answer kind_of F t Hl Hro Hw Hc. exact (proj1 (monotone_subset_proof answer root_answer kind_of F Hl Hro t Hw Hc)). Qed.
+
+Lemma requests_subset_proof : forall answer root_answer kind_of F t,
+  (forall id k, F id = Some k -> loud (kind_of id) k = true) -> roots_are_objects root_answer ->
+  fplan_wf kind_of t = true -> consistent answer root_answer kind_of t = true ->
+  requests_subset_b (ls_reqs (run answer root_answer kind_of no_faults t)) (ls_reqs (run answer root_answer kind_of F t)) = true.
+Proof. intros answer root_answer kind_of F t Hl Hro Hw Hc. exact (proj2 (monotone_subset_proof answer root_answer kind_of F Hl Hro t Hw Hc)). Qed.
+
 Lemma no_corruption_proof : forall answer root_answer kind_of F t,
-  (forall id k, F id = Some k -> loud (kind_of id) k = true) ->
+  (forall id k, F id = Some k -> loud (kind_of id) k = true) -> roots_are_objects root_answer ->
   fplan_wf kind_of t = true -> consistent answer root_answer kind_of t = true ->
   forall l v, get_loc l (ls_data (run answer root_answer kind_of F t)) = Some v -> is_atom v = true ->
   get_loc l (ls_data (run answer root_answer kind_of no_faults t)) = Some v.
 Proof.
-  intros answer root_answer kind_of F t Hl Hwf Hc l v Hg Ha.
-  destruct (monotone_subset_proof answer root_answer kind_of F Hl t Hwf Hc) as [Hs _].
+  intros answer root_answer kind_of F t Hl Hro Hwf Hc l v Hg Ha.
+  pose proof (monotone_proof answer root_answer kind_of F t Hl Hro Hwf Hc) as Hs.
   destruct (sub_get_loc _ _ _ _ Hs Hg) as (w & Hw & Hvw). rewrite (sub_atom_eq _ _ Ha Hvw) in Hw. exact Hw.
 Qed.
 
-Lemma monotone_proof : forall answer root_answer kind_of F t,
-  (forall id k, F id = Some k -> loud (kind_of id) k = true) ->
-  fplan_wf kind_of t = true -> consistent answer root_answer kind_of t = true ->
-  sub_b (ls_data (run answer root_answer kind_of F t)) (ls_data (run answer root_answer kind_of no_faults t)) = true.
-Proof. intros answer root_answer kind_of F t Hl Hw Hc. exact (proj1 (monotone_subset_proof answer root_answer kind_of F Hl t Hw Hc)). Qed.
-
-Lemma requests_subset_partial_proof : forall answer root_answer kind_of F t,
-  (forall id k, F id = Some k -> loud (kind_of id) k = true) ->
-  fplan_wf kind_of t = true -> consistent answer root_answer kind_of t = true ->
-  requests_subset_b (ls_reqs (run answer root_answer kind_of no_faults t)) (ls_reqs (run answer root_answer kind_of F t)) = true.
-Proof. intros answer root_answer kind_of F t Hl Hw Hc. exact (proj2 (monotone_subset_proof answer root_answer kind_of F Hl t Hw Hc)). Qed.
-
-Lemma errors_nonempty_partial_proof' : forall answer root_answer kind_of F t,
-  (forall id k, F id = Some k -> loud (kind_of id) k = true) ->
+Lemma errors_nonempty_proof : forall answer root_answer kind_of F t,
+  (forall id k, F id = Some k -> loud (kind_of id) k = true) -> roots_are_objects root_answer ->
   forallb (fetch_wf kind_of) (fetches_of t) = true ->
   (exists rq, In rq (ls_reqs (run answer root_answer kind_of no_faults t)) /\ F (rq_fetch rq) <> None) ->
   ls_errors (run answer root_answer kind_of F t) <> [].
-Proof. intros answer root_answer kind_of F t Hl. exact (errors_nonempty_partial_proof answer root_answer kind_of F Hl t). Qed.
+Proof. intros answer root_answer kind_of F t Hl Hro. exact (errors_nonempty_partial_proof answer root_answer kind_of F Hl Hro t). Qed.
